@@ -462,6 +462,100 @@ func runC20(c *Ctx) {
 	c.ruleWholeText("L2-whole-text")
 	c.Min("L2-whole-text", 3)
 	c.Min("L1-citing-nodes-populated", 24)
+	// L8: an ill-typed arithmetic operation is reported by the operator table as an error, which the node that
+	// called it wraps with its position (L3/L4); that holds only if the table cannot fault before it reports.
+	// An operand may have no value at all (a missing field, a call without result: the zero reflect.Value), on
+	// which every method but Kind, IsValid and String panics: in core.Add / Sub / Mul / Div such a method is
+	// called on an operand only under a positive test of the operand's kind
+	for _, name := range []string{"Add", "Sub", "Mul", "Div"} {
+		f := c.MustFn("L8-operator-table-cannot-fault", "internal/core", "", name)
+		if f == nil {
+			continue
+		}
+		x := c.Index(f)
+		isOperand := func(v ssa.Value) *ssa.Parameter {
+			p, _ := x.Origin(v).(*ssa.Parameter)
+			return p
+		}
+		// kindOf: the condition is derived from <operand>.Kind()
+		var kindOf func(v ssa.Value, d int) *ssa.Parameter
+		kindOf = func(v ssa.Value, d int) *ssa.Parameter {
+			if d > 6 || v == nil {
+				return nil
+			}
+			switch t := x.Origin(v).(type) {
+			case *ssa.Call:
+				if nm, cc := reflectMethod(t); cc != nil && nm == "Kind" {
+					return isOperand(cc.Args[0])
+				}
+				for _, a := range t.Call.Args {
+					if p := kindOf(a, d+1); p != nil {
+						return p
+					}
+				}
+				if t.Call.IsInvoke() {
+					return kindOf(t.Call.Value, d+1)
+				}
+			case *ssa.BinOp:
+				if p := kindOf(t.X, d+1); p != nil {
+					return p
+				}
+				return kindOf(t.Y, d+1)
+			case *ssa.UnOp:
+				return kindOf(t.X, d+1)
+			case *ssa.Convert:
+				return kindOf(t.X, d+1)
+			case *ssa.ChangeType:
+				return kindOf(t.X, d+1)
+			case *ssa.Phi:
+				for _, e := range t.Edges {
+					if p := kindOf(e, d+1); p != nil {
+						return p
+					}
+				}
+			}
+			return nil
+		}
+		bad, badPos, n := "", f.Pos(), 0
+		eachInstr(f, func(in ssa.Instruction) {
+			call, ok := in.(*ssa.Call)
+			if !ok || bad != "" {
+				return
+			}
+			nm, cc := reflectMethod(call)
+			if cc == nil || nm == "Kind" || nm == "IsValid" || nm == "String" {
+				return
+			}
+			p := isOperand(cc.Args[0])
+			if p == nil {
+				return
+			}
+			n++
+			okG := false
+			for _, g := range x.GuardsOf(call.Block()) {
+				cond, pol := g.Cond, g.Pol
+				for {
+					u, isU := cond.(*ssa.UnOp)
+					if !isU || u.Op != token.NOT {
+						break
+					}
+					cond, pol = u.X, !pol
+				}
+				if bo, isB := cond.(*ssa.BinOp); isB && bo.Op == token.NEQ {
+					pol = !pol // k != X false means k == X
+					_ = bo
+				}
+				if pol && kindOf(cond, 0) == p {
+					okG = true
+				}
+			}
+			if !okG {
+				bad, badPos = "Value."+nm+" on operand "+p.Name(), call.Pos()
+			}
+		})
+		c.Check("L8-operator-table-cannot-fault", "core."+name, bad == "" && n > 0, badPos, "core.%s calls %s without a positive test of that operand's kind before it (%d reflect calls on operands examined): on an operand without a value the call panics and the fault is reported without the position of the operation", name, orStr(bad, "nothing"), n)
+	}
+	c.Min("L8-operator-table-cannot-fault", 4)
 	c.Min("L2-start-of-own-context", 24)
 
 	// L3: errors created in evaluators of citing nodes
